@@ -226,6 +226,33 @@ ClassFile(c, nsEnums, ser) ==
                    [kind |-> "enum", path |-> PathOf(c.nspath \o <<c.name>>, c.enums[i].name \o ".m"), name |-> c.enums[i].name,
                     enumerators |-> [j \in 1..Len(c.enums[i].enumerators) |-> [name |-> c.enums[i].enumerators[j], value |-> j - 1]]]]]
 
+\* ---- what the PROPERTY says about enums, as opposed to the rule the generator applies (IsEnumOf above, transcribed):
+\* a parameter / result / property whose type is ANY enum the module declares is marshalled as an enum (C06).  The
+\* generator recognises an enum only by its bare name among the enums of the class itself and of the namespace BLOCK
+\* the class sits in - never for a free function.  EnumGaps lists the places where the two differ.
+RECURSIVE EnumCpps(_, _)
+EnumCpps(items, nspath) ==
+  UNION { CASE items[i].k = "namespace" -> EnumCpps(items[i].items, nspath \o <<items[i].name>>)
+            [] items[i].k = "enum" -> { JoinStr(nspath \o <<items[i].name>>, "::") }
+            [] items[i].k = "class" -> { items[i].cpp \o "::" \o items[i].enums[j].name : j \in 1..Len(items[i].enums) }
+            [] OTHER -> {} : i \in 1..Len(items) }
+TypesOf(m) == [j \in 1..Len(m.args) |-> m.args[j].t] \o (IF "ret" \in DOMAIN m THEN (IF m.ret.pair THEN <<m.ret.t1, m.ret.t2>> ELSE <<m.ret.t1>>) ELSE <<>>)
+RECURSIVE EnumGaps(_, _, _, _)
+EnumGaps(items, nspath, all, ignore) ==
+  LET nsEnums == [i \in 1..Len(SelectSeq(items, LAMBDA d : d.k = "enum")) |-> SelectSeq(items, LAMBDA d : d.k = "enum")[i].name]
+      gap(t, cls) == t.cpp \in all /\ ~IsEnumOf(t, cls, nsEnums)
+      anyGap(ms, cls) == \E k \in 1..Len(ms) : \E j \in 1..Len(TypesOf(ms[k])) : gap(TypesOf(ms[k])[j], cls)
+  IN FlatSeq([i \in 1..Len(items) |->
+       LET d == items[i] IN
+       CASE d.k = "namespace" -> EnumGaps(d.items, nspath \o <<d.name>>, all, ignore)
+         [] d.k = "class" /\ ~InSeq(JoinStr(d.nspath \o <<d.name>>, "::"), ignore) ->
+              LET cls == WithEnumNames(d) IN
+              IF anyGap(d.ctors, cls) \/ anyGap(d.methods, cls) \/ anyGap(d.statics, cls)
+                 \/ (\E k \in 1..Len(d.props) : gap(d.props[k].t, cls))
+              THEN << d.cpp >> ELSE <<>>
+         [] d.k = "function" -> IF anyGap(<<d>>, NoClass) THEN << JoinStr(nspath \o <<d.name>>, "::") >> ELSE <<>>
+         [] OTHER -> <<>>])
+
 \* the MATLAB ignore list names classes by namespace::InstantiatedName
 IgnoreName(c) == JoinStr(c.nspath \o <<c.name>>, "::")
 
